@@ -17,6 +17,14 @@ def describe_action(P, module, cls, node):
         return ('none',)
     if isinstance(node, ast.Name) and isinstance(P.resolve_name(module, node.id), FunctionInfo):
         return ('callback', node.id, P.resolve_name(module, node.id))
+    if isinstance(node, ast.Name):
+        # a class-level (or module-level) constant standing for an action
+        owner_, expr_ = cls.find_attr(node.id) if cls is not None else (None, None)
+        if owner_ is not None and expr_ is not None and not isinstance(expr_, ast.Name):
+            return describe_action(P, owner_.module, owner_, expr_)
+        mexpr = getattr(module, 'assigns', {}).get(node.id) if hasattr(module, 'assigns') else None
+        if mexpr is not None and isinstance(mexpr, (ast.Call, ast.Tuple)):
+            return describe_action(P, module, cls, mexpr)
     if isinstance(node, (ast.Name, ast.Attribute)):
         parts = []
         x = node
@@ -31,7 +39,19 @@ def describe_action(P, module, cls, node):
         ref = P.resolve_name(module, fn)
         full = ref.name if isinstance(ref, External) else fn
         if full.endswith('bygroups'):
-            return ('bygroups', [describe_action(P, module, cls, a) for a in node.args])
+            acts = []
+            for a in node.args:
+                if isinstance(a, ast.Starred):
+                    tup = a.value
+                    if isinstance(tup, ast.Name):
+                        owner_, expr_ = cls.find_attr(tup.id) if cls is not None else (None, None)
+                        tup = expr_ if owner_ is not None else None
+                    if not isinstance(tup, (ast.Tuple, ast.List)):
+                        raise AnalysisError('lexer action not understood: %s' % norm(node))
+                    acts += [describe_action(P, module, cls, x) for x in tup.elts]
+                else:
+                    acts.append(describe_action(P, module, cls, a))
+            return ('bygroups', acts)
         if full.endswith('using'):
             tgt = describe_action(P, module, cls, node.args[0])
             st = None
@@ -391,6 +411,63 @@ def run(P, rep, tier):
                 rep.ok(r9, _rule_name(rule), 'matches every newline-terminated line')
     if not ok:
         rep.violation(r9, 'no-fallback', loc0, 'no root rule matches an arbitrary line: unmatched text yields Error tokens')
+
+    # ---- R10 sub-lexing into an own state: the state must tokenise everything the group can hold ------------
+    r10 = rep.rule('C20-R10', 'a group handed to using(this, state=S) holds only text that the rules of S tokenise completely '
+                   '(the writer\'s option lists for the options group, any "#."-free text for content groups)', reference=1)
+    W = RX.from_pattern(r'[A-Za-z][A-Za-z0-9_-]*=[A-Za-z0-9/._-]+(?:, [A-Za-z][A-Za-z0-9_-]*=[A-Za-z0-9/._-]+)*', 0)
+    anytext = RX.difference(RX.sigma_star(N), RX.contains_substring([ord('#'), ord('.')], N))
+
+    def state_language(sname, seen=()):
+        alts = None
+        for r_ in table.get(sname, []):
+            if r_['kind'] == 'include':
+                if r_['target'] in seen:
+                    continue
+                d_ = state_language(r_['target'], seen + (sname,))
+                d_ = None if d_ is None else d_[1]
+            else:
+                if 'tree' not in r_:
+                    continue
+                d_ = RX.sub_dfa(list(r_['tree']), False, flags, N, asserts='over')
+            if d_ is not None:
+                alts = d_ if alts is None else RX.union(alts, d_)
+        if alts is None:
+            return None
+        return RX.star(alts), alts
+    n10 = 0
+    for state, i, rule in all_rules:
+        act = rule['action']
+        if act[0] != 'bygroups' or 'tree' not in rule:
+            continue
+        for gi, a in enumerate(act[1], 1):
+            if not (a[0] == 'using' and a[1] == 'this' and a[2] is not None and a[2] in table):
+                continue
+            n10 += 1
+            sl = state_language(a[2])
+            if sl is None:
+                rep.violation(r10, 'empty-state:%s' % a[2], loc(rule), 'state %r has no rules' % a[2])
+                continue
+            T = sl[0]
+            try:
+                Lg = RX.group_language(rule['pattern'], flags, gi, asserts='over')
+            except AnalysisError:
+                Lg = None
+            if Lg is not None and RX.included(W, Lg) is None and RX.included(anytext, Lg) is not None:
+                req, what = W, 'an option list the writer can emit'
+            elif Lg is not None and RX.included(anytext, RX.union(Lg, RX.empty_string(N))) is None:
+                req, what = anytext, 'content without "#."'
+            else:
+                raise AnalysisError('using(this, state=%r) on group %d of %r: role of the group not recognised' % (a[2], gi, rule['pattern'][:40]))
+            w_ = RX.included(req, T)
+            if w_ is None:
+                rep.ok(r10, '%s[%d] group %d -> state %r' % (state, i, gi, a[2]), what)
+            else:
+                rep.violation(r10, 'state-not-total:%s:%s' % (_rule_name(rule), a[2]), loc(rule),
+                              'group %d of rule %r is sub-lexed in state %r, whose rules cannot tokenise %s completely, e.g. %r: the '
+                              'unmatched characters become Error tokens' % (gi, rule['pattern'][:40], a[2], what, RX.show(w_, N)))
+    if n10 == 0:
+        rep.info('no using(this, state=...) action in the table')
 
     # ---- R8 entry point ------------------------------------------------------------
     r8 = rep.rule('C20-R8', 'setup.py pygments entry point names an existing module and class', reference=1)
